@@ -25,7 +25,7 @@ package main
 //
 // Mutex names are `Type.field` (or `Type` for an embedded mutex); the first three indices are
 // fixed: 0 = Conn.handshakeMutex, 1 = Conn.in, 2 = Conn.out; anything else follows in order of
-// discovery (so an unexpected mutex moves lockNames and the pinned fact breaks).
+// discovery (today: 3 = Conn.workKeyMu, the leaf mutex of the work key) (so an unexpected mutex moves lockNames and the pinned fact breaks).
 
 import (
 	"fmt"
@@ -702,25 +702,54 @@ func emitLocks(e *emitter, p *pkg) {
 	}
 	e.boolean("activeCallCloseSetsBitOnce", closeOK)
 
-	// Close wipes c.workKey (written by the handshake under handshakeMutex) only between
-	// c.handshakeMutex.Lock() and c.handshakeMutex.Unlock() (F46)
+	// Close wipes c.workKey only between c.workKeyMu.Lock() and c.workKeyMu.Unlock(), and every
+	// establishKeys (which stores the key block and copies the keys out of it) holds workKeyMu
+	// for its whole body: `c := hs.c; c.workKeyMu.Lock(); defer c.workKeyMu.Unlock(); …` (F46)
 	cb := body(p, "Conn.Close")
 	iWipe := stmtIndex(p, cb, func(s string, _ ast.Stmt) bool { return s == "setZero(c.workKey)" })
 	iNil := stmtIndex(p, cb, func(s string, _ ast.Stmt) bool { return s == "c.workKey = nil" })
 	iL, iU := -1, -1
 	for i, st := range cb {
 		switch p.src(st) {
-		case "c.handshakeMutex.Lock()":
+		case "c.workKeyMu.Lock()":
 			if i < iWipe || iWipe < 0 {
 				iL = i
 			}
-		case "c.handshakeMutex.Unlock()":
+		case "c.workKeyMu.Unlock()":
 			if i > iNil && iU < 0 {
 				iU = i
 			}
 		}
 	}
-	e.boolean("closeWipesKeyUnderHandshakeMutex", iWipe >= 0 && iNil > iWipe && iL >= 0 && iL < iWipe && iU > iNil)
+	e.boolean("closeWipesKeyUnderWorkKeyMu", iWipe >= 0 && iNil > iWipe && iL >= 0 && iL < iWipe && iU > iNil)
+	var ekLocked []string
+	for _, key := range []string{"clientHandshakeState.establishKeys", "serverHandshakeState.establishKeys"} {
+		eb := body(p, key)
+		if len(eb) < 4 || p.src(eb[0]) != "c := hs.c" || p.src(eb[1]) != "c.workKeyMu.Lock()" || p.src(eb[2]) != "defer c.workKeyMu.Unlock()" {
+			continue
+		}
+		ekLocked = append(ekLocked, key)
+	}
+	e.strList("establishKeysHoldWorkKeyMu", ekLocked)
+	// every function that mentions c.workKey at all
+	var wkUsers []string
+	for key, fd := range p.funcs {
+		if fd.Body == nil {
+			continue
+		}
+		found := false
+		ast.Inspect(fd.Body, func(n ast.Node) bool {
+			if se, ok := n.(*ast.SelectorExpr); ok && se.Sel.Name == "workKey" {
+				found = true
+			}
+			return true
+		})
+		if found {
+			wkUsers = append(wkUsers, key)
+		}
+	}
+	sort.Strings(wkUsers)
+	e.strList("workKeyUsers", wkUsers)
 
 	// handshakeContext: after handshakeMutex.Lock()/defer Unlock(): `if err := c.handshakeErr; err != nil { return err }`
 	// and `if c.handshakeComplete() { return nil }` both before c.in.Lock() and the single handshakeFn call.
